@@ -17,6 +17,10 @@ package oracle
 //   is             Filter(IncludeSources [A, B]) — (A, B) rotates through the ordered pairs of registered sources
 //   xs             Filter(ExcludeSources [A])   — A rotates through the registered sources
 //   in             Filter(IncludeNames [start-up cert lint, newest mock]) followed by configuring the result
+//   lt             lint: one of the history objects (a diverse certificate set chosen by the parent, one CRL, one OCSP
+//                  response — rotating with the step) is linted with the global registry; to the registry a lint run is a
+//                  read, so every table must be what it was (and the result set must have one entry per lint of the
+//                  model of that kind)
 //
 // Invariant after every operation (reference = plain slice of lintDesc carried along):
 //   tables   every lookup structure of the global registry equals the model (compareRegistryMulti)       → C12
@@ -36,9 +40,11 @@ import (
 	"github.com/zmap/zlint/v3/lint"
 
 	"verif/core"
+	"verif/seeds"
+	"verif/zl"
 )
 
-var regHistAlphabet = []string{"rc", "rl", "ro", "nm", "js", "sel", "is", "xs", "in"}
+var regHistAlphabet = []string{"rc", "rl", "ro", "nm", "js", "sel", "is", "xs", "in", "lt"}
 
 type regHistFinding struct {
 	Tag  string `json:"tag"`
@@ -54,9 +60,10 @@ type regHistOut struct {
 }
 
 // RunRegHistory executes one history in this (fresh) process and prints the findings as JSON.
-func RunRegHistory(ops []string, rot int) {
+func RunRegHistory(ops []string, rot int, objNames []string) {
 	out := regHistOut{}
 	g := lint.GlobalRegistry()
+	histObjs := seeds.LoadNamed(objNames...) // reading and parsing files does not touch zlint
 	model := snapshotRegistry(g)
 	startup := map[string]string{}
 	for _, d := range model {
@@ -192,6 +199,34 @@ func RunRegHistory(ops []string, rot int) {
 		case "xs":
 			a := srcList[(rot+i*5)%len(srcList)]
 			filterAgainstModel("filter", lint.FilterOptions{ExcludeSources: lint.SourceList{a}}, fmt.Sprintf("ExcludeSources [%s]", a))
+		case "lt":
+			if len(histObjs) == 0 {
+				break
+			}
+			sd := histObjs[(rot+i)%len(histObjs)]
+			o, err := zl.Parse(sd.Kind, sd.DER)
+			if err != nil {
+				break
+			}
+			rs, p := zl.Lint(o, g)
+			out.Validated++
+			if p != nil || rs == nil {
+				break // C01/C02
+			}
+			kind := map[seeds.Kind]string{seeds.Cert: "cert", seeds.CRL: "crl", seeds.OCSP: "ocsp"}[sd.Kind]
+			want := 0
+			for _, d := range model {
+				if d.Kind == kind {
+					want++
+					if rs.Results[d.Name] == nil {
+						add("tables", "lint_run_misses_registered_lint", fmt.Sprintf("linting %s with the global registry gives no result for the registered %s lint %s", sd.Name, kind, d.Name))
+						break
+					}
+				}
+			}
+			if len(rs.Results) != want {
+				add("tables", "lint_run_result_count", fmt.Sprintf("linting %s with the global registry gives %d results, the registry holds %d %s lints", sd.Name, len(rs.Results), want, kind))
+			}
 		case "in":
 			inc := []string{startup["cert"]}
 			for _, k := range []string{"ocsp", "crl", "cert"} {
@@ -225,11 +260,16 @@ func regHistories(ctx *core.Ctx, rep *core.Report, prop string, tags map[string]
 		return
 	}
 	A := regHistAlphabet
+	if !tags["tables"] {
+		// the lint operation is observed through the tables invariant (C12): the other properties keep the shorter alphabet
+		A = A[:len(A)-1]
+	}
 	total := 1
 	for i := 0; i < depth; i++ {
 		total *= len(A)
 	}
 	distinct := map[string]bool{}
+	objArg := strings.Join(regHistObjects(), ";")
 	for n := 0; n < total; n++ {
 		if !ctx.Mine(uint64(n)) {
 			continue
@@ -254,7 +294,7 @@ func regHistories(ctx *core.Ctx, rep *core.Report, prop string, tags map[string]
 		}
 		_ = hasReg
 		_ = hasObs
-		cmd := exec.Command(self, "reghist", strings.Join(ops, ","), fmt.Sprint(n))
+		cmd := exec.Command(self, "reghist", strings.Join(ops, ","), fmt.Sprint(n), objArg)
 		cmd.Env = os.Environ()
 		raw, err := cmd.Output()
 		if err != nil {
@@ -282,7 +322,7 @@ func regHistories(ctx *core.Ctx, rep *core.Report, prop string, tags map[string]
 				continue
 			}
 			rep.Violate(prop+"|registry_history|"+f.Tag+"|"+f.Key, fmt.Sprintf("after the history %v (from a fresh process), step %d: %s", ops[:f.Step], f.Step, f.What),
-				map[string]interface{}{"op": "registry_history", "ops": ops[:f.Step], "rot": n})
+				map[string]interface{}{"op": "registry_history", "ops": ops[:f.Step], "rot": n, "objects": objArg})
 		}
 		distinct[sig] = true
 	}
@@ -312,4 +352,40 @@ func lastLine(b []byte) []byte {
 		s = s[i+1:]
 	}
 	return []byte(s)
+}
+
+// regHistObjects: what the `lt` operation lints — certificates that differ as much as the corpus allows under the global
+// registry (greedy by new (lint, status) pairs: a TLS leaf, an S/MIME certificate, a CA …, so that scope-dependent paths
+// of a lint run are all taken), one CRL, one OCSP response.
+func regHistObjects() []string {
+	all := seeds.Load()
+	var certs []*seeds.Seed
+	var names []string
+	crl, ocsp := "", ""
+	for i := range all {
+		switch all[i].Kind {
+		case seeds.Cert:
+			if i%4 == 0 {
+				certs = append(certs, &all[i])
+			}
+		case seeds.CRL:
+			if crl == "" {
+				crl = all[i].Name
+			}
+		case seeds.OCSP:
+			if ocsp == "" {
+				ocsp = all[i].Name
+			}
+		}
+	}
+	for _, d := range c10Diverse(lint.GlobalRegistry(), certs, 4) {
+		names = append(names, d.Name)
+	}
+	if crl != "" {
+		names = append(names, crl)
+	}
+	if ocsp != "" {
+		names = append(names, ocsp)
+	}
+	return names
 }
